@@ -1,5 +1,11 @@
 """Registry entries of the later batches (C26-C35, C21).  Merged into registry.CLAIMED."""
 CLAIMED = {}
+# growth of the specification beyond the listed properties: `./check Xnn`, evidence under extensions/evidence, findings are printed as EXTENSION-FINDING (exit 0)
+EXTENSIONS = [
+    dict(name="tlc+AccessFlags", path="/verif/spec/AccessFlags.tla",
+         text="X01: access_flags of classes / fields / methods as the DEX format defines them per kind and the words they are rendered with; every single bit and pair of bits replayed through "
+              "ClassDefItem / EncodedField / EncodedMethod.get_access_flags_string() (vf/props/x01.py); finding: one table is used for all kinds (volatile -> 'bridge', transient -> 'varargs', annotation unnamed)"),
+]
 
 
 def _simple(spec, text, note, tech, ref):
